@@ -75,8 +75,15 @@ Definition relays (st : nstate) (u : upd) (recv : node) : list action :=
                u_conns := u_conns u; u_fwd := ns_self st; u_susp := u_susp u |} in
   map (fun c => Relay c u') (filter (fun c => negb (c =? recv)) (ns_conns st)).
 
+(* every listed cost is positive (an update listing a zero or negative cost is ignored) *)
+Fixpoint costs_pos (a : amap N) : bool :=
+  match a with [] => true | (_, c) :: r => (0 <? c) && costs_pos r end.
+Definition conns_pos (c : option (amap N)) : bool :=
+  match c with Some a => costs_pos a | None => true end.
+
 Definition handle_update (st : nstate) (u : upd) (recv : node) : nstate * list action :=
   if u_origin u =? 0 then (st, [])
+  else if negb (conns_pos (u_conns u)) then (st, [])
   else if u_origin u =? ns_self st then
     if u_epoch u =? ns_epoch st then (st, [])
     else if u_susp u =? ns_epoch st then
